@@ -87,6 +87,7 @@ func (p *Prog) rgOps(f *ssa.Function, depth int) []rgOp {
 
 func checkC09(c *Ctx) {
 	p := c.P
+	checkNoKnownNilErrorReturn(c, "R2", func(f *ssa.Function) bool { return inPkg(p, f, "/open_game_manager") && f.Parent() == nil }, 0)
 	gt := p.singleImpl("/open_game_manager", "OpenGameManager")
 	if gt == nil {
 		c.Bad("R1", "anchors", "-", "open-game manager not found")
